@@ -80,7 +80,12 @@ def repeat_harness(n, with_box):
         let f2: Box<GenericArray<u32, U%(n)d>> = box_arr![{ log(10); x }; %(n)d];
         assert!(logn() == 2, "box_arr![x; N]: the element expression must be evaluated exactly once per invocation");
         { let i = any_upto(%(n)d - 1); assert!(f1[i] == x && f2[i] == x); }
-''' % {'n': n}) if n > 0 else '        // N = 0: Kani 0.68 mis-models `vec![x; 0]` after a write to a static (capacity != 0, path-dependent): side-effect form checked for N > 0 only\n'}) if with_box else ''}
+''' % {'n': n}) if n > 0 else '''        // N = 0: Kani 0.68 mis-models `vec![x; 0]` after a write to a static (capacity != 0, path-dependent): the evaluation count is kept in a local
+        let mut evals = 0u32;
+        let z1: Box<GenericArray<u32, U0>> = box_arr![{ evals += 1; x }; U0];
+        let z2: Box<GenericArray<u32, U0>> = box_arr![{ evals += 1; x }; 0];
+        assert!(evals == 2 && z1.len() == 0 && z2.len() == 0, "box_arr![x; 0]: the element expression must be evaluated exactly once per invocation (as `[x; 0]` and `arr!` do)");
+'''}) if with_box else ''}
 
 c20 = ['//! GENERATED by tools/gen_harnesses.py - do not edit.\n//! C20: arr! / box_arr! build the array their literal syntax denotes.\n#![allow(unused_braces)]\n']
 c20.append('''
